@@ -106,8 +106,11 @@ RemoveClauses(kind, a, b, o, r) ==
                ELSE {k \in 1..n : a.items[k].id = o.key}
       Removed(k) == b.items = RemoveAt(a.items, k) /\ (kind \in ChanKinds => b.chans = RemoveAt(a.chans, k))
   IN IF o.by = "index" /\ o.key < 0 THEN {}                   \* negative indices: not specified
-     ELSE IF Cands = {} THEN If(b # a, "C15:remove_of_absent")      \* (whether it raises is not specified)
-     ELSE If(~r.ok \/ ~\E k \in Cands : Removed(k), "C15:remove")
+     \* (C15 speaks about the channel-mapped kinds; for the others - plain Python lists behind a
+     \* public attribute - the removal itself is only conformance, what counts is that the OTHER
+     \* blocks stay as they are: C20, OthersSame)
+     ELSE IF Cands = {} THEN If(b # a, IF kind \in ChanKinds THEN "C15:remove_of_absent" ELSE "conf:remove_of_absent")
+     ELSE If(~r.ok \/ ~\E k \in Cands : Removed(k), IF kind \in ChanKinds THEN "C15:remove" ELSE "conf:remove")
 
 \* whole-list assignment
 AssignClauses(kind, a, b, o, r) ==
